@@ -671,7 +671,7 @@ func main() {
 			}
 			nontrivial := ex.Dropped > 0 || len(ex.Attrs) < offered
 			if p.CloneAt < 0 {
-				w.Add(vgen.App("CRec", vgen.Z(int64(p.LenLim)), vgen.Z(int64(p.CntLim)), vgen.List(ops), ex.coq()), desc, kind, nontrivial)
+				w.Add(vgen.App("CRec", vgen.Z(int64(p.LenLim)), vgen.Z(int64(p.CntLim)), coqKVs(buildKVs(p.Init)), vgen.List(ops[nInit:]), ex.coq()), desc, kind, nontrivial)
 				return
 			}
 			if cl == nil {
